@@ -282,10 +282,9 @@ def upstream (cfg : Cfg) (w : World) (t : Nat) (order chain : List Nat) (fuel : 
     if cl.any w.hasExec then (w, .execRefused)
     else if !validOrder cl order then (w, .badObs)
     else if !order.all (fun i => w.parent i = w.parent t) then
-      -- `nodes_to_data_digraph` refuses; the wiring helper re-connects what it broke,
-      -- `run_data_tree` puts the labels back
-      let cut := cutRec w.g (cutChans order)
-      ({ w with g := reconnect cut.1 cut.2 }, .mixedScope)
+      -- `nodes_to_data_digraph` refuses; the wiring helper puts back the very connection lists
+      -- it had cut (it remembers the lists, not the pairs), `run_data_tree` the labels
+      (w, .mixedScope)
     else if !validChain w cl chain then (w, .badObs)
     else
       let starter := chain.headD t
